@@ -184,9 +184,9 @@ def _openvpn_worker(args):
         n += 1
         if n % parts != part:
             continue
-        acks = list(range(1, nack + 1))
-        for sid in (0, 1, 2 ** 64 - 1):
-            rsid = 0x0102030405060708 if acks else None
+        acks = ([0, 2 ** 32 - 1] + list(range(1, 255)))[:nack]
+        for sid, rsid in itertools.product((0, 1, 2 ** 64 - 1),
+                                           (0x0102030405060708, 0, 1, 2 ** 64 - 1) if acks else (None,)):
             # ACK
             wire = ref.openvpn_ack(sid, acks, rsid or 0)
             both_ways(acc, ov.OpenVpnPacketAckV1, wire, lambda sid=sid, acks=acks, rsid=rsid: ov.OpenVpnPacketAckV1(sid, rsid, acks),
